@@ -24,31 +24,26 @@ TRUSTED = ["networkx DiGraph / topological_sort / predecessors / in_edges taken 
            "read off the loop by hand"]
 SPOT_N = 10   # the oracle over up to 4096 orientations is slow under vm_compute
 ASSUMPTIONS = ["input is a networkx.DiGraph that is acyclic", "int labels (label families: C15)"]
-TECHNIQUE = ("Coq proof (termination, structure, v-structure edges compelled, invariance under edge-list order: unbounded; "
-             "'directed iff essential' by kernel computation for every DAG on <=5 nodes x every topological order; oracle reflection "
-             "and 'equal essential graphs iff Markov equivalent' unbounded) + extracted-model correspondence")
-LEVEL_TEXT = ("Unbounded theorems: cpdag_total (the labelling loop never exhausts its fuel); cpdag_structure (for every DAG and every "
-              "topological order: exactly the DAG's nodes, directed/undirected edges partition the DAG's edge set = same skeleton, "
-              "directed edges keep the DAG's orientation); cpdag_vstructs_compelled + cpdag_vstructs (every edge of a v-structure is "
-              "directed; the CPDAG has exactly the DAG's v-structures, is a well-formed PDAG and the DAG is a consistent extension of "
-              "it); cpdag_compelled_sound (one half of Chickering's theorem, all sizes: every DIRECTED edge of the result lies in every "
-              "Markov-equivalent DAG — via a derivation system (v-structure edges + four orientation rules) proved sound for "
-              "`essential`, closed under the chain-graph step 'w->x derived, x->y, w->y => w->y derived', and preserved by every "
-              "labelling step along the processing order); cpdag_compelled_iff_derivable (the directed edges are EXACTLY the closure of "
-              "the v-structure edges under those rules, so the labelling is a sound and complete implementation of the rule system); cpdag_model_invariant (the result depends on the edge list only as a set); essential_oracle_correct; "
-              "essential_classifies (equal essential graphs iff Markov equivalent, about the spec). "
-              "Bounded: cpdag_essential_bounded_5 — for EVERY DAG on the nodes 0..n-1, n<=5 (29 281 DAGs at n=5; any edge-list order) "
-              "and EVERY topological order, directed edges = edges present in every Markov-equivalent DAG (Prop `essential`); kernel "
-              "computation in 8 shards (~75 CPU-s), table-driven per skeleton, proved to imply the naive oracle, enumeration proved "
-              "complete. Beyond n=5 'directed iff essential' is observed by correspondence only (oracle up to |E|<=12).")
-LEVEL_NOTE = ("The other half of Chickering's theorem (an edge labelled reversible is reversed in some equivalent DAG, "
-              "cpdag_reversible_not_essential_stmt in C04/Spec.v) is proved only for n<=5 (inside cpdag_essential_bounded_5): it needs the "
-              "construction of an equivalent DAG (covered-edge reversals / re-rooting of a chordal chain component), which is not "
-              "formalised; by cpdag_compelled_iff_derivable it is equivalent to an algorithm-free statement about DAGs (a non-derivable "
-              "edge is reversed in some equivalent DAG; proof plan in C04/Spec.v); the full statement is cpdag_essential_stmt in C04/Spec.v. The bounded theorem requires the node list to be "
-              "[0;..;n-1]. order_edges is modelled by its closed form (targets from last to first in the topological order, sources "
-              "ascending), label_edges loop by loop with fuel. acyclic is stated as existence of a topological numbering. The "
-              "implementation is tied to the model at networkx's actual topological order of the very DiGraph it receives.")
+TECHNIQUE = ("Coq proof, all clauses unbounded: model = essential graph (Chickering's theorem for Algorithm 4/5, all sizes), "
+             "structure, classification of Markov equivalence; independent kernel re-computation for n<=5; "
+             "+ extracted-model correspondence")
+LEVEL_TEXT = ("All clauses of the property are unbounded theorems about the model, for every DAG and EVERY topological order: "
+              "cpdag_total (no fuel exhaustion); cpdag_structure (exactly the DAG's nodes; directed and undirected edges partition the "
+              "DAG's edge set = same skeleton; directed edges keep the DAG's orientation); cpdag_essential (an edge is directed iff it "
+              "lies in every Markov-equivalent DAG, i.e. Chickering's theorem for the order+label algorithms: cpdag_compelled_sound + "
+              "cpdag_reversible_not_essential); cpdag_classifies (two DAGs receive equal CPDAGs iff they are Markov equivalent, whatever "
+              "topological orders are used). Supporting unbounded theorems: cpdag_compelled_iff_derivable (the labelling computes exactly "
+              "the closure of the v-structure edges under four orientation rules), essential_iff_derivable (model-free), "
+              "cpdag_vstructs, cpdag_model_invariant (edge-list order irrelevant), essential_oracle_correct, essential_classifies. "
+              "Independent cross-check by kernel computation: cpdag_essential_bounded_5 (all 29 281 DAGs on 5 nodes and all smaller, "
+              "every topological order, table-driven, 8 shards ~75 CPU-s).")
+LEVEL_NOTE = ("Proof route for 'undirected => reversible': compelled parents are shared along non-compelled edges (chain-graph lemma, by "
+              "induction along the node order on a per-node description of the final labels), the reversed topological order is a "
+              "perfect elimination ordering of the non-compelled layer, C08/Chordal.v (peo_last: a PEO with any vertex last; this C04 "
+              "cone therefore depends on that stdlib-only file of the C08 builder) and re-orientation by that PEO. order_edges is "
+              "modelled by its closed form (targets from last to first in the topological order, sources ascending), label_edges loop by "
+              "loop with fuel. acyclic is stated as existence of a topological numbering. The implementation is tied to the model by "
+              "correspondence at networkx's actual topological order of the very DiGraph it receives.")
 
 
 LAB_FAMILIES = ["str", "tuple", "bigint", "frozenset", "int257", "obj", "mixed"]
